@@ -7,11 +7,13 @@ Line-protocol driver for the C09 model (name → id assignment), see harness/int
   findtv <tagKeyId> <v>           | schema <metricId>
   series <shard> <metricId> <tagset> k:v k:v ...
   mseries <shard> <metricId> | tvseries <shard> <tagValueId> | tkseries <shard> <tagKeyId>
+  iflushimg <s> <j>                           (real index Flush; crash image taken just before its (j+1)-th kv family commit)
   mflushfail | iflushfail <s>                 (the first dictionary flush that writes fails at its kv commit)
   mprepare | mflush | mflushcrash <k> | iprepare <s> | iflush <s> | iflushcrash <s> <k> | reopen | crash
   krace <nsBucket> <ns> <name>                (two callers, A stopped before createValue)
   srace tagkey|field <metricId> <nameA> <nameB>  (two callers, A stopped before the store lock)
   lflush <nsBucket> <ns> <name>               (GenMetricID of existing names ‖ a whole metadata flush)
+  bcrace <nsBucket> <ns> <x>                  (lookup of an unknown name stopped after getSnapshot ‖ flush persisting x; then GenMetricID(ns, x))
   scrace <metricId> <fb> <fc>                 (reader's GetSchema stopped before cache.Add ‖ writer fb ‖ flush; then writer fc)
   swindow field <metricId> <f>                (metadata flush; GenFieldID runs between the schema commit and MarkPersisted)
 
@@ -142,6 +144,11 @@ def step (nd : Node) (ws : List String) : Node × String :=
     match sh.toNat? with
     | some sh => if sh < nd.nShards then (nd.indexFlush sh, "ok") else bad
     | none => bad
+  | ["iflushimg", sh, j] =>
+    match sh.toNat?, j.toNat? with
+    | some sh, some j =>
+      if sh < nd.nShards then ((nd.indexFlushPrefix sh (Node.stepsBeforeCommit (nd.shards sh) j)).recover, "ok") else bad
+    | _, _ => bad
   | ["iflushcrash", sh, k] =>
     match sh.toNat?, k.toNat? with
     | some sh, some k => if sh < nd.nShards ∧ k ≤ 4 then ((nd.indexFlushPrefix sh k).recover, "ok") else bad
@@ -177,6 +184,10 @@ def step (nd : Node) (ws : List String) : Node × String :=
   | ["lflush", nb, ns, name] =>
     match nb.toNat?, ns.toNat?, name.toNat? with
     | some nb, some ns, some name => let r := nd.lookupFlushRace cfg nb ns name; (r.1, showOut r.2)
+    | _, _, _ => bad
+  | ["bcrace", nb, ns, x] =>
+    match nb.toNat?, ns.toNat?, x.toNat? with
+    | some nb, some ns, some x => let r := nd.bucketCacheRace cfg nb ns x; (r.1, s!"L=notfound X={showOut r.2}")
     | _, _, _ => bad
   | ["scrace", m, fb, fc] =>
     match m.toNat?, fb.toNat?, fc.toNat? with
